@@ -29,6 +29,7 @@ struct CallRec {
     int ret;
     int64_t ill;      // illegal-callback invocations during the call
     Bytes out;        // serialised outputs (empty if the callback fired: outputs are undefined then)
+    bool misuse = false;   // the probe passed an invalid object on purpose: only the callback count is compared
 };
 struct ProbeRun {
     std::vector<CallRec> calls;
@@ -87,6 +88,7 @@ struct ProbeEnv {
     bool stop_on_illegal;
     // record one call; outs are (ptr,len) pairs appended when no callback fired
     bool call(const char *api, int ret, int64_t ill0, std::initializer_list<std::pair<const void *, size_t>> outs);
+    void call_misuse(const char *api, int64_t ill0);   // deliberate caller misuse: illegal callback expected, return value and outputs undefined
 };
 
 typedef void (*ProbeFn)(ProbeEnv &);
@@ -105,5 +107,6 @@ extern "C" void probe_compression(uint32_t *state, const unsigned char *blocks, 
 
 std::string run_digest(const ProbeRun &r);   // compact text form for histories
 bool same_run(const ProbeRun &a, const ProbeRun &b, std::string *diff);
+int64_t misuse_callbacks(const ProbeRun &r);   // illegal callbacks provoked on purpose by the probe
 
 }  // namespace sim
